@@ -293,6 +293,9 @@ type Playlist struct {
 	// OmitRangeStart prints the BYTERANGE offset only for the first listed segment; the others
 	// continue the previous sub-range (RFC 8216 4.3.2.2)
 	OmitRangeStart bool
+	// RangeStartEvery > 0 (with OmitRangeStart): the offset is also printed on every segment whose
+	// absolute index is a multiple of it (explicit offsets in the middle of a run)
+	RangeStartEvery int
 	// Low-Latency
 	CanBlockReload bool
 	CanSkipUntilNS int64
@@ -384,7 +387,7 @@ func (p *Playlist) render(k int) string {
 		b.WriteString("#EXTINF:" + fmtDur(s.DurNS) + ",\n")
 		if s.RangeLen != nil {
 			b.WriteString("#EXT-X-BYTERANGE:" + strconv.FormatUint(*s.RangeLen, 10))
-			if s.RangeStart != nil && (!p.OmitRangeStart || i == w.First) {
+			if s.RangeStart != nil && (!p.OmitRangeStart || i == w.First || (p.RangeStartEvery > 0 && i%p.RangeStartEvery == 0)) {
 				b.WriteString("@" + strconv.FormatUint(*s.RangeStart, 10))
 			}
 			b.WriteString("\n")
